@@ -466,7 +466,7 @@ def run(tier, seed):
             # password length boundaries (one scalar each)
             for pw in [b"q" * n for n in ((256, 257, 1025) if quick else (31, 32, 33, 63, 64, 65, 127, 128, 129, 255, 256, 257, 300, 1024, 1025, 5000))]:
                 stasks.append((name, side, pw, xs[2:3], tier, seed))
-    stasks.sort(key=lambda t: -T.get(t[0]).ref.esize)
+    stasks.sort(key=lambda t: -T.hint(t[0]).ref.esize)
     C.prepare_patterns(T.SHIPPED, "ABS", b"password", 0 if quick else 1)
     ptasks = []
     for name in T.SHIPPED:
@@ -476,7 +476,7 @@ def run(tier, seed):
         for side in "ABS":
             for part in range(np_):
                 ptasks.append((name, side, 0 if quick else 1, part, np_))
-    ptasks.sort(key=lambda t: -T.get(t[0]).ref.esize)
+    ptasks.sort(key=lambda t: -T.hint(t[0]).ref.esize)
     heavy = [("rare", (n, s_)) for n in reversed(T.SHIPPED) for s_ in "ABS"] + [("pat", t) for t in ptasks] + [("ship", t) for t in stasks]
     core.pmerge(_heavy, heavy, acc)
     _golden(acc)
